@@ -220,8 +220,11 @@ def _rows(repo, col):
                   f"results are written to rows {rt.short()} but were computed from rows {r_v.short()}", node=w.node)
         res = T.find(kt, lambda x: x.op == "mcall" and x.name == "init_state")
         res2 = T.find(vt, lambda x: x.op == "mcall" and x.name == "init_state")
-        ok = res is not None and res2 is not None and kt.op == "item" and vt.op == "item" \
-            and kt.name == 0 and vt.name == 1 and kt.args[0].key() == vt.args[0].key()
+        # (key, value) of one element of <result>.items(); the value is normalised to <result>[key]
+        pair_a = kt.op == "item" and vt.op == "item" and kt.name == 0 and vt.name == 1 and kt.args[0].key() == vt.args[0].key()
+        pair_b = kt.op == "item" and kt.name == 0 and vt.op == "sub" and vt.args[1].key() == kt.key() and kt.args[0].op == "elem" and \
+            kt.args[0].args[0].op == "mcall" and kt.args[0].args[0].name == "items" and kt.args[0].args[0].args[0].key() == vt.args[0].key()
+        ok = res is not None and res2 is not None and (pair_a or pair_b)
         col.check(ok, "R-C14-rows", fi, "write-back keys and values come from init_state's result",
                   "each key returned by init_state is written with its own value",
                   f"written column {kt.short(60)} / value {vt.short(60)} are not the (key, value) pairs of "
